@@ -237,7 +237,11 @@ def check(pid, tier, seed):
         hits = grep_forbidden()
         for h in hits:
             breaks.append(("audit", "forbidden token: " + h))
+    import fingerprints
+    moved = fingerprints.changed(pid)
     ctx = Ctx(tier, seed, data)
+    if moved:
+        ctx.notes["source_changed_since_fingerprint"] = moved
     if hasattr(prop, "setup"):
         prop.setup(ctx)
     if breaks and hasattr(prop, "table_candidates"):
@@ -280,6 +284,47 @@ def check(pid, tier, seed):
             stats["disagree"] += 1
             if len(disagreements) < 200:
                 disagreements.append(dict(case=c, impl=io, model=mo, why=why))
+    # where the code moved since the model last agreed with it, the correspondence digs deeper (DESIGN section 5):
+    # a second pass with the thorough generators, in batches, for a bounded time
+    if moved and tier == "quick" and not disagreements and not breaks:
+        budget = float(os.environ.get("BARRIL_ESCALATE_S", "90"))
+        t_esc = time.time()
+        ctx2 = Ctx("thorough", seed, data)
+        if hasattr(prop, "setup"):
+            prop.setup(ctx2)
+        batch, extra = [], 0
+
+        def flush(batch):
+            ios = [prop.impl(c, ctx2) for c in batch]
+            mos, _dt = run_driver(prop.DRIVER_EXE, [dumps(prop.model_line(c) if hasattr(prop, "model_line") else c) for c in batch])
+            for c, io, mo in zip(batch, ios, mos):
+                stats["evaluations"] += 1
+                if "bad" in mo:
+                    raise Infra("driver rejected %r: %s" % (c, mo["bad"]))
+                why = prop.agree(c, io, mo, ctx2)
+                if why is None:
+                    stats["agree"] += 1
+                    if prop.nontrivial(c, io):
+                        nontrivial.add(hashlib.sha1(dumps(prop.case_key(c) if hasattr(prop, "case_key") else c).encode()).digest()[:8])
+                else:
+                    stats["disagree"] += 1
+                    if len(disagreements) < 200:
+                        disagreements.append(dict(case=c, impl=io, model=mo, why=why))
+
+        for c in prop.cases(ctx2):
+            batch.append(c)
+            if len(batch) >= 1000:
+                flush(batch)
+                extra += len(batch)
+                batch = []
+                if disagreements or time.time() - t_esc > budget:
+                    break
+        else:
+            if batch:
+                flush(batch)
+                extra += len(batch)
+        ctx.notes["escalated_cases_thorough_generators"] = extra
+        ctx.notes["escalation_seconds"] = round(time.time() - t_esc, 1)
     if disagreements:
         breaks.append(("correspondence", "%d of %d cases: model and implementation differ; first: %s" % (
             stats["disagree"], stats["evaluations"], dumps(dict(case=prop.show(disagreements[0]["case"]) if hasattr(prop, "show") else disagreements[0]["case"],
